@@ -198,6 +198,9 @@ def arg_var2(style):
     if style == 0:
         return lv.Combine(lv.Variable("x", lambda data: data[1][0]), lv.Variable("y", lambda data: data[1][1]),
                           name="xy")
+    if style == 2:
+        # the getter returns a list, not a tuple
+        return lv.Variable("xy", lambda data: list(data[1]), dim=2)
     return lv.Variable("xy", lambda data: data[1], dim=2)
 
 
